@@ -16,6 +16,9 @@ func binPath() string {
 	if p := os.Getenv("VERIF_BIN"); p != "" {
 		return p
 	}
+	if exe, err := os.Executable(); err == nil { // the harness and the real binary are built into the same directory
+		return filepath.Join(filepath.Dir(exe), "ps3netsrv-go")
+	}
 	return "/verif/.build/ps3netsrv-go"
 }
 
